@@ -759,6 +759,22 @@ func c17Provenance(p *Prog, r *Report) {
 			loop = rs
 		}
 	}
+	bodies := []*ast.BlockStmt{fi.Decl.Body}
+	if len(sites) == 0 || loop == nil {
+		// the directory loop and the store in a helper of the use case (place): the helper is spliced in
+		bodies = p.deepBodies(fi)
+		for _, body := range bodies[1:] {
+			for _, rs := range rangeLoops(body) {
+				if c, ok := ast.Unparen(rs.X).(*ast.CallExpr); ok && p.callIs(fi.Pkg, c, kDirsIterate) {
+					loop = rs
+				}
+			}
+		}
+		if loop != nil {
+			f = p.FlatInlExcept(fi, kContentStore)
+			sites = f.CallSites(kContentStore)
+		}
+	}
 	if len(sites) == 0 || loop == nil {
 		if p.funcCallsDeep(fi, p.keysPred(kContentStore)) && p.funcCallsDeep(fi, p.keysPred(kDirsIterate)) {
 			r.Undecided("C17.a", kStoreSet+"#path", p.pos(fi.Decl), "the content is stored and the directories are iterated in helpers or closures the rule does not follow")
@@ -815,16 +831,31 @@ func c17Provenance(p *Prog, r *Report) {
 		r.Check(okParent, "C17.a", kStoreSet+"#parent-is-yielded-dir", p.pos(s.Call), "Parent = Path() of the directory yielded in this iteration", "the content file's Parent is not the Path() of the directory yielded by the iterator in this iteration")
 		// Id from the generator
 		idOK := false
-		ast.Inspect(fi.Decl.Body, func(x ast.Node) bool {
-			if kv, ok := x.(*ast.KeyValueExpr); ok {
-				if id, ok := kv.Key.(*ast.Ident); ok && id.Name == "Id" {
-					if c, ok := ast.Unparen(kv.Value).(*ast.CallExpr); ok && p.callIs(fi.Pkg, c, kGenerate) {
-						idOK = true
+		idFromVersion, versionIdGenerated := false, false
+		for _, body := range bodies {
+			ast.Inspect(body, func(x ast.Node) bool {
+				if kv, ok := x.(*ast.KeyValueExpr); ok {
+					if id, ok := kv.Key.(*ast.Ident); ok && id.Name == "Id" {
+						if c, ok := ast.Unparen(kv.Value).(*ast.CallExpr); ok && p.callIs(fi.Pkg, c, kGenerate) {
+							idOK = true
+						}
+						// the id of the version record built before (ContentFile{Id: file.ContentId})
+						if sel, ok := ast.Unparen(kv.Value).(*ast.SelectorExpr); ok && sel.Sel.Name == "ContentId" {
+							idFromVersion = true
+						}
+					}
+					if id, ok := kv.Key.(*ast.Ident); ok && id.Name == "ContentId" {
+						if c, ok := ast.Unparen(kv.Value).(*ast.CallExpr); ok && p.callIs(fi.Pkg, c, kGenerate) {
+							versionIdGenerated = true
+						}
 					}
 				}
-			}
-			return true
-		})
+				return true
+			})
+		}
+		if idFromVersion && versionIdGenerated {
+			idOK = true
+		}
 		r.Check(idOK, "C17.a", kStoreSet+"#id-from-generator", p.pos(s.Call), "content id from the UUID generator", "the content id (file name) does not come from the UUID generator")
 	}
 	// dirs from the directory usecase
@@ -832,6 +863,10 @@ func c17Provenance(p *Prog, r *Report) {
 	if c, ok := ast.Unparen(loop.X).(*ast.CallExpr); ok {
 		if sel, ok := c.Fun.(*ast.SelectorExpr); ok {
 			if o := objOf(info, sel.X); o != nil {
+				// (the parameter of a spliced-in helper stands for the argument it was given)
+				if co := f.CanonObj(o); co != nil {
+					o = co
+				}
 				if rhs := singleDefIn(info, fi.Decl.Body, o); rhs != nil {
 					if dc, ok := ast.Unparen(rhs).(*ast.CallExpr); ok && p.callIs(fi.Pkg, dc, kDirGet) {
 						dirsOK = true
